@@ -27,6 +27,15 @@ def _go(chk, cfg, rounds, timeout=2400, workers=8):
         elif o["t"] == "summary":
             chk.evaluations += o["evaluations"]
     chk.traces += len(res.replay)
+    if rounds in (1, 2):
+        # the same behaviours over the shipped VDAFs: Prio3 (one round), Poplar1 (two rounds)
+        out = vlib.run_harness(["c12", "real", str(rounds), str(chk.seed)], stdin_path=fn)
+        for o in out:
+            if o["t"] == "mismatch":
+                chk.mismatch({"case": o["case"], "detail": o["detail"], "config": cfg})
+            elif o["t"] == "summary":
+                chk.evaluations += o["evaluations"]
+                chk.parts[cfg + "-real-vdafs"] = {"replayed": o["evaluations"]}
 
 
 def run(chk):
@@ -44,9 +53,14 @@ def run(chk):
         + (", R=4 (<=1), R=2 (<=3)" if thorough else "")
         + " is model-checked (outputs correct, shares reach the combiner in aggregator order, release only on the honest transcript, message sequence) and "
           "replayed step by step through leader_initialized/helper_initialized/*_continued/evaluate with every Transition continuation encoded, decoded, "
-          "compared and re-evaluated; continuation kind, error kind, next state, outbound message and released share are compared with the model.")
+          "compared and re-evaluated; continuation kind, error kind, next state, outbound message and released share are compared with the model. "
+          "The R=1 behaviours are also replayed over the real Prio3 (Count, Histogram with joint randomness, a two-proof SumVec) and the R=2 behaviours over the real "
+          "Poplar1 (inner and leaf level): abstract payloads are mapped to the bytes of an honest broadcast execution, every out-of-place delivery must be refused, "
+          "every accepted one must produce exactly the broadcast's next state, outbound message and output share, and every continuation is persisted, reloaded "
+          "(with the VDAF's own state decoder) and re-evaluated.")
     chk.assumptions = ["the instrumented VDAF (harness) implements the abstract VDAF of the spec: round- and order-sensitive verify_next, byte codecs",
-                       "real Prio3/Poplar1 under ping-pong are exercised by C01/C03, not by this replay"]
+                       "over the real VDAFs error kinds are compared for PeerMessageMismatch only (a real VDAF may refuse an out-of-place share in the combiner, "
+                       "where the abstract one refuses in verify_next); a wrong share is refused by the real VDAFs except with negligible probability"]
 
 
 def replay(chk, path):
